@@ -425,6 +425,13 @@ def correspond(ctx, facts, batch):
                 m = delaunay_mesh(nprng, dim, rng.randrange(7, 12) if dim == 2 else rng.randrange(6, 9))
                 ncand = facts[f'C14Gen{which.capitalize()}']['ncand']
                 pool = mesh_points(m, rng, kinds=('interior', 'outside'), per_kind=10)
+                # the empty batch
+                try:
+                    r0 = np.asarray(m.element_finder()(*np.zeros((dim, 0))))
+                    r0 = ('ok', [int(c) for c in r0.ravel()])
+                except Exception as ex:      # noqa: BLE001 - reported by search_zero_points with a replay
+                    r0 = ('raises', repr(ex))
+                cases.append((f'({enc_simplex_mesh(m)}, ({clist([])}, {enc_pts([])}))', enc_res(r0), (which, m.t.shape[1], 0, 'empty', [])))
                 for _ in range(ctx.n(5, 12)):
                     k = rng.randrange(1, 6)
                     kinds = 'interior' if rng.random() < 0.7 else 'mixed'
@@ -437,7 +444,7 @@ def correspond(ctx, facts, batch):
                     ctx.hist(f'corr_{which}_result', r[0])
             ctx.sample({'kind': f'{which} finder batch', 'cells': cases[0][2][1], 'points': cases[0][2][2], 'impl': cases[0][1]})
             batch.add(f'finder_{which}', IMPORTS, f'run_{which}', 'onats_eqb', cases, defs=MESH_DEFS, per_file=ctx.n(40, 60),
-                      nontrivial=lambda r: r[2] >= 2 or r[3] == 'raises')
+                      nontrivial=lambda r: r[2] >= 2 or r[3] in ('raises', 'empty'))
         # ---- split finders on parallelogram / box / prism meshes (integer shear of a tensor mesh)
         for which in ('quad', 'hex', 'wedge'):
             cases = []
@@ -1197,6 +1204,46 @@ def search_probes_restricted(ctx):
     ctx.extra['restricted_trailing_integer_search'] = {'configurations': n}
 
 
+# ============================================================================ search(): queries with zero points
+
+def search_zero_points(ctx):
+    """every finder returns an empty integer array for an empty batch; probes has shape (0, N), interpolator returns an array
+    with the component axes and a zero point axis"""
+    import skfem
+    rng = ctx.rng
+    n = 0
+    cfgs = [('tri', 'ElementTriP2'), ('tri', 'ElementVector:ElementTriP1'), ('quad', 'ElementQuad1'), ('tet', 'ElementTetP1'),
+            ('hex', 'ElementHex1'), ('wedge', 'ElementWedge1'), ('line', 'ElementLineP1')]
+    for fam, ename in cfgs:
+        m = line_mesh(rng, 5) if fam == 'line' else tensor_mesh(rng, fam, shear=True)
+        d = m.p.shape[0]
+        x0 = np.zeros((d, 0))
+        data = {'mesh_class': type(m).__name__, 'p': m.p.tolist(), 't': m.t.tolist(), 'element': ename, 'site': 'zero-points'}
+        cname = type(m).__name__
+        n += 1
+        ctx.count(('zero-points', cname, ename), nontrivial=True)
+        try:
+            r = np.asarray(m.element_finder()(*x0))
+            if r.shape != (0,) or r.dtype.kind not in 'iu':
+                ctx.fail(f'finder:{cname}:zero-points', f'finder of zero points returns {r!r}, expected an empty integer array', data)
+        except Exception as ex:      # noqa: BLE001 - an empty batch is a valid input
+            ctx.fail(f'finder:{cname}:zero-points', f'finder raises {type(ex).__name__}: {ex} for zero query points', data)
+            continue
+        try:
+            bs = skfem.Basis(m, make_elem(ename))
+            tord = tuple(bs._base_tensor_order)
+            comp = int(np.prod(tord)) if tord else 1
+            Pm = bs.probes(x0)
+            y = np.arange(bs.N, dtype=float)
+            it = np.asarray(bs.interpolator(y)(x0))
+            if Pm.shape != (0, bs.N) or it.shape != tord + (0,) or comp < 1:
+                ctx.fail(f'probes:{ename}:{cname}:zero-points', f'probes of zero points has shape {Pm.shape} (expected {(0, bs.N)}), '
+                         f'interpolator returns shape {it.shape} (expected {tord + (0,)})', data)
+        except Exception as ex:      # noqa: BLE001
+            ctx.fail(f'probes:{ename}:{cname}:zero-points', f'probes / interpolator raise {type(ex).__name__}: {ex} for zero query points', data)
+    ctx.extra['zero_point_search'] = {'configurations': n}
+
+
 def replay(ctx, data):
     import skfem
     inp = data['input']
@@ -1235,6 +1282,19 @@ def replay(ctx, data):
         diff = float(np.max(np.abs(got - ref)))
         ctx.log('batch vs one-point-at-a-time: max abs difference', diff)
         if diff > 1e-9 * (1 + float(np.max(np.abs(ref)))):
+            ctx.fail(data['key'], data['what'], inp)
+    elif site == 'zero-points':
+        m = getattr(skfem, inp['mesh_class'])(np.array(inp['p']), np.array(inp['t']))
+        try:
+            r = np.asarray(m.element_finder()(*np.zeros((m.p.shape[0], 0))))
+            bs = skfem.Basis(m, make_elem(inp['element']))
+            Pm = bs.probes(np.zeros((m.p.shape[0], 0)))
+            ctx.log('finder of zero points:', r, ' probes shape:', Pm.shape)
+            bad = r.shape != (0,) or Pm.shape != (0, bs.N)
+        except Exception as ex:      # noqa: BLE001
+            ctx.log('raised', type(ex).__name__, ex)
+            bad = True
+        if bad:
             ctx.fail(data['key'], data['what'], inp)
     elif site == 'line-int':
         m = skfem.MeshLine1(np.array(inp['p']), np.array(inp['t']))
